@@ -195,6 +195,7 @@ LXH("lx_str_expr_quote_expr_k3", SEP, "thorough", "genuine string expression: '\
 LXH("lx_str_expr_percent_k3", COMMON + ["C06", "C07", "C10"], "thorough", "plain literal: '%' (no name start after it) + <= 2 code points", SE, 3600, stubs=SES + XID, fixed="%", contexts=["quote"], mem=20)
 LXH("lx_str_expr_amp_k3", COMMON + ["C06", "C07", "C10"], "thorough", "genuine string expression: '&' run that is no macro trigger, <= 3 code points", SE, 3600, stubs=SES + XID, fixed="&", contexts=["str_expr"], mem=20)
 LXH("lx_str_expr_percent_ascii_n3", COMMON + ["C06", "C07", "C10"], "quick", "plain literal: '%' + exactly 2 ASCII characters at constant byte positions (the dispatcher-consumed '%' belongs to the text and payload)", SE, 2400, stubs=SES + XID, fixed="%", contexts=["quote"], mem=16)
+LXH("lx_plumbing_marks", ["C01", "C02", "C03", "C04", "C09"], "quick", "exactly 3 code points; two or three tokens emitted at the pending start / at a saved mark, one error", ["Lexer::start_token", "Lexer::mark_token_start", "Lexer::emit_token", "Lexer::emit_token_at_mark", "Lexer::prep_error_info_at_cur_offset"], 300, contexts=["eval"], mem=8)
 LXH("lx_unterminated_str_direct", ["C01", "C02", "C03", "C04", "C06", "C07", "C09", "C10"], "quick", "end of input; payload handed over by the text scanner symbolic; look-behind (start token last / another token on any channel) symbolic", ["Lexer::handle_unterminated_str_expr", "Lexer::update_last_token"], 300, contexts=["str_expr"], mem=8)
 HARNESSES[-1]["decoder"] = None
 LXH("lx_double_quoted_literal_direct", ["C01", "C02", "C03", "C04", "C06", "C07", "C10", "C11", "C16"], "quick", "closing quote + <= 2 code points of suffix; payload handed over symbolic", ["Lexer::lex_double_quoted_literal", "Lexer::resolve_string_literal_ending", "Lexer::update_last_token"], 300, stubs=HEXS, fixed='"', contexts=["quote"], mem=8)
@@ -274,7 +275,7 @@ COST = {
     "lx_default_classifier": 90, "lx_double_quoted_literal_direct": 43, "lx_eval_dispatch_ops": 104, "lx_eval_string_lite_n3": 450, "lx_eval_percent_op": 143, "lx_identifier_k4": 98,
     "lx_macro_call_k3": 99, "lx_macro_def_args": 59, "lx_macro_do_arms": 146, "lx_macro_identifier_k4": 100, "lx_macro_local_global_arms": 36,
     "lx_maybe_arg_assign": 55, "lx_maybe_tail_arg": 21, "lx_name_expr_arms": 69, "lx_semi_text_classifier": 172, "lx_stat_opts_classifier": 168,
-    "lx_str_call_classifier": 182, "lx_datalines_ascii_n1": 40, "lx_datalines_ascii_vt_n2": 30, "lx_datalines_ascii_semi_n2": 30, "lx_datalines_ascii_semi_n3": 59, "lx_datalines_ascii_semi_n4": 63, "lx_datalines4_ascii_semi_n3": 96, "lx_datalines4_ascii_semi_n6": 138, "lx_str_expr_start": 29, "lx_symbols_table": 93, "lx_unterminated_str_direct": 39,
+    "lx_str_call_classifier": 182, "lx_datalines_ascii_n1": 40, "lx_datalines_ascii_vt_n2": 30, "lx_datalines_ascii_semi_n2": 30, "lx_datalines_ascii_semi_n3": 59, "lx_datalines_ascii_semi_n4": 63, "lx_datalines4_ascii_semi_n3": 96, "lx_datalines4_ascii_semi_n6": 138, "lx_str_expr_start": 29, "lx_symbols_table": 93, "lx_unterminated_str_direct": 39, "lx_plumbing_marks": 40,
 }
 
 
@@ -307,7 +308,7 @@ PRIMARY = [
     ("lx_default_star", ["C11", "C01"]), ("lx_default_symbol", ["C11"]),
     ("lx_eval_dispatch_ops", ["C13", "C16", "C06", "C01"]), ("lx_eval_string_lite_n3", ["C13", "C06"]), ("lx_eval_percent_op", ["C13", "C06"]),
     ("lx_arg_or_value_", ["C13", "C01", "C09"]), ("lx_maybe_arg_assign", ["C13", "C02", "C04", "C01"]), ("lx_maybe_tail_arg", ["C13", "C14"]),
-    ("lx_macro_def_args", ["C13", "C14", "C09"]), ("lx_unterminated_str_direct", ["C10", "C07", "C09"]), ("lx_double_quoted_literal_direct", ["C07", "C10", "C16", "C11", "C06"]),
+    ("lx_macro_def_args", ["C13", "C14", "C09"]), ("lx_unterminated_str_direct", ["C10", "C07", "C09"]), ("lx_plumbing_marks", ["C02", "C03", "C04", "C09"]), ("lx_double_quoted_literal_direct", ["C07", "C10", "C16", "C11", "C06"]),
     ("lx_str_expr_start", ["C10"]), ("lx_identifier_k4", ["C16", "C06", "C11"]), ("lx_macro_identifier_k4", ["C16", "C06", "C03"]),
     ("lx_macro_call_k3", ["C03", "C06", "C13", "C09", "C01"]), ("lx_symbols_table", ["C11", "C06"]), ("lx_char_format_k5", ["C11", "C03", "C06"]),
     ("lx_default_classifier", ["C11", "C01", "C08", "C10"]), ("lx_semi_text_classifier", ["C04", "C01", "C13", "C14"]), ("lx_stat_opts_classifier", ["C04", "C06", "C01", "C14"]),
